@@ -11,6 +11,7 @@ import (
 	"sync"
 	"sync/atomic"
 	"testing"
+	"time"
 
 	"github.com/AdguardTeam/golibs/syncutil"
 	"pgregory.net/rapid"
@@ -230,6 +231,80 @@ var panicProp = vp.Register(vp.Prop[PanicCase]{
 })
 
 func TestPanic(t *testing.T) { vp.Run(t, panicProp) }
+
+// AnyKeyCase: the key type is an interface.  A key of an unhashable dynamic
+// type makes Get panic (a caller bug that the caller recovers from); the
+// constructor object must stay usable for every other key afterwards.
+type AnyKeyCase struct {
+	Keys []int `json:"keys"` // 0..5 ordinary keys (ints and strings), 6 and 7 unhashable ones
+}
+
+func checkAnyKey(c AnyKeyCase) error {
+	var cons sync.Map // key string -> *atomic.Int32
+	oc := syncutil.NewOnceConstructor(func(k any) *int32 {
+		n, _ := cons.LoadOrStore(fmt.Sprint(k), new(atomic.Int32))
+		n.(*atomic.Int32).Add(1)
+		return new(int32)
+	})
+	mk := func(i int) any {
+		switch i {
+		case 6:
+			return []int{1}
+		case 7:
+			return map[string]int{"x": 1}
+		case 0, 1, 2:
+			return i
+		}
+		return fmt.Sprintf("key-%d", i)
+	}
+	first := map[int]*int32{}
+	afterBad := false
+	for step, i := range c.Keys {
+		i = ((i % 8) + 8) % 8
+		done := make(chan *int32, 1)
+		go func() {
+			defer func() {
+				if recover() != nil {
+					done <- nil // the caller recovers from its own mistake
+				}
+			}()
+			done <- oc.Get(mk(i))
+		}()
+		select {
+		case got := <-done:
+			if i >= 6 {
+				afterBad = true
+				continue
+			}
+			if prev, ok := first[i]; ok && prev != got {
+				return fmt.Errorf("step %d: key %v returned a different result than before", step, mk(i))
+			}
+			first[i] = got
+			if n, _ := cons.Load(fmt.Sprint(mk(i))); n == nil || n.(*atomic.Int32).Load() != 1 {
+				return fmt.Errorf("step %d: the constructor of key %v has not run exactly once", step, mk(i))
+			}
+		case <-time.After(15 * time.Second):
+			return fmt.Errorf("HANG: step %d: Get(%v) has not returned after 15 s (keys so far %v; an earlier Get with an unhashable key had panicked and was recovered: %v)", step, mk(i), c.Keys[:step], afterBad)
+		}
+	}
+	vp.Class("anykey")
+	if afterBad {
+		vp.Class("anykey:new-keys-after-a-recovered-unhashable-key")
+		vp.NonTrivialStr("c17.anykey", fmt.Sprint(c))
+		vp.Sample("anykey", c)
+	}
+	return nil
+}
+
+var anyKeyProp = vp.Register(vp.Prop[AnyKeyCase]{
+	Kind: "c17.anykey", Base: 1500,
+	Gen: func(t *rapid.T) AnyKeyCase {
+		return AnyKeyCase{Keys: rapid.SliceOfN(rapid.IntRange(0, 7), 2, 12).Draw(t, "keys")}
+	},
+	Check: checkAnyKey,
+})
+
+func TestAnyKey(t *testing.T) { vp.Run(t, anyKeyProp) }
 
 // HotKeyCase: very many Get calls for ONE key of ONE OnceConstructor (a hot
 // key in a long-running server, e.g. a per-name logger fetched on every
